@@ -10,7 +10,7 @@ from mc import core, ghost
 PROPERTY = 'C06'
 LEVEL = 'model_checking'
 RULE = ('program = (handler shape of e0, e1, e2[, e3]) x (one or two root events in flight) x (task stepping order fifo/lifo) '
-        'x optional timeout (0, 1, 3 iterations, also 1/2 and 5/2); callers: call by object, wait by name, wait by object, two calls in sequence, call then yield, '
+        'x optional timeout (0, 1, 3 iterations, also 1/2 and 5/2; the handler catches the TimeoutError and ends, or goes on with a bare yield, a value or a second call); callers: call by object, wait by name, wait by object, two calls in sequence, call then yield, '
         'yield then call; callees: return v/None, raise, generators yielding 1-2 times, raising before/after first yield, '
         'two handlers (one or both of them generators suspended at the same time); each program executed once under the real run(); non-trivial = every program (each suspends at least '
         'one caller); distinct = distinct program')
@@ -84,6 +84,7 @@ def caller_handlers(level, shape, opts=None):
         'cally': [('call', nxt, o), ('y', b + 9)],
         'ycall': [('y', None), ('call', nxt, o)],
         'cally0': [('call', nxt, o), ('y', 0)],
+        'callyn': [('call', nxt, o), ('y', None), ('y', b + 9)],     # (after a time-out: the handler catches it and goes on)
         # two roots in flight: one of them calls, the other waits by name for an event of the same name
         'callwait': [('byinst', [('call', nxt, o), ('waitn', nxt, o)])],
         'waitcall': [('byinst', [('waitn', nxt, o), ('call', nxt, o)])],      # the caller's own result, produced right after being resumed, is falsy
@@ -115,7 +116,7 @@ def programs(tier):
         # time-outs: caller with timeout t against callee lasting k iterations
         touts = (0, 1, 3, 0.5, 2.5)      # (a time-out need not be a whole number of iterations)
         for t in touts:
-            for c0 in ('call', 'waitn', 'waito'):
+            for c0 in ('call', 'waitn', 'waito', 'cally', 'callyn', 'call2'):
                 for s in SLOW + ['R', 'GX1']:
                     for nroots in (1, 2):
                         yield (c0, s), nroots, rev, t
@@ -145,7 +146,7 @@ def build(program):
     shapes, nroots, rev, timeout = program
     handlers = []
     for lvl, sh in enumerate(shapes):
-        if sh in CALLER or sh == 'waitnever':
+        if sh in CALLER or sh in ('waitnever', 'callyn'):
             opts = {'timeout': timeout} if (timeout is not None and lvl == 0) else None
             handlers += caller_handlers(lvl, sh, opts)
         else:
